@@ -39,9 +39,13 @@ class RealManager:
     def __init__(self, timecode=False):
         import pyrtma.manager as mm
 
+        if not hasattr(mm.socket, "socketpair"):
+            from . import simnet
+
+            simnet.uninstall()  # this process is dedicated to the real-TCP tier
         quiet()
         if not hasattr(mm.socket, "socketpair"):
-            raise HarnessError("the TCP tier must run in a process where the simulator shims are not installed")
+            raise HarnessError("the TCP tier needs the real socket module in pyrtma.manager")
         self.mgr = mm.MessageManager("127.0.0.1", 0, timecode=timecode, log_level=logging.ERROR, send_msg_timing=True)
         self.port = self.mgr.listen_socket.getsockname()[1]
         self.mgr.INFO_INTERVAL = 0.35
